@@ -47,6 +47,7 @@ pub struct SigK {
     pub configured: BTreeSet<u8>,
     /// a raised instance is waiting (standard signals coalesce)
     pub pending: [bool; 4],
+    pub pending_at_wait: [bool; 4],
     /// the source object still exists (its Drop unblocks the mask)
     pub alive: bool,
 }
@@ -75,6 +76,16 @@ fn live_source(st: &St) -> Option<Id> {
 
 pub fn begin_run(sim: &Sim) {
     install_handlers();
+    // process-wide state must not leak from one run into the next: release whatever a previous
+    // (failing) run left blocked or pending before taking the baseline
+    unsafe {
+        let mut set: libc::sigset_t = std::mem::zeroed();
+        libc::sigemptyset(&mut set);
+        for (n, _) in UNIVERSE.iter() {
+            libc::sigaddset(&mut set, *n);
+        }
+        libc::pthread_sigmask(libc::SIG_UNBLOCK, &set, std::ptr::null_mut());
+    }
     let mut st = sim.st.borrow_mut();
     st.sig.base = hits();
     st.sig.expected = [0; 4];
@@ -144,7 +155,7 @@ pub fn sig_new(sim: &Sim, id: Id, sigs: &[u8], script: &Script) {
         on_signal(id, ev, tag);
     });
     let configured: BTreeSet<u8> = sigs.iter().copied().filter(|i| *i < 4).collect();
-    let mut src = new_src(id, script, K::Sig(SigK { disp: Some(disp.clone()), configured, pending: [false; 4], alive: true }), sh, cbd);
+    let mut src = new_src(id, script, K::Sig(SigK { disp: Some(disp.clone()), configured, pending: [false; 4], pending_at_wait: [false; 4], alive: true }), sh, cbd);
     src.kept = true;
     let r = guarded(sim, "register_dispatcher", || h.register_dispatcher(disp).map_err(|e| e.to_string()));
     if let Some(r) = r {
@@ -275,6 +286,29 @@ fn on_signal(id: Id, ev: calloop::signals::Event, tag: &mut Tag) {
         }
     }
     crate::cb::run_script(&sim, id);
+}
+
+/// after an Ok dispatch: every instance that was pending when the batch was collected has
+/// been handed to the callback
+pub fn after_dispatch(sim: &Sim, ok: bool) {
+    if !ok {
+        return;
+    }
+    let st = sim.st.borrow();
+    for (id, s) in st.srcs.iter() {
+        let K::Sig(k) = &s.k else { continue };
+        if !(s.inserted && s.enabled) || s.indeterminate || s.excused || !st.must.contains_key(id) {
+            continue;
+        }
+        for i in 0..4 {
+            if k.pending_at_wait[i] && k.pending[i] && k.configured.contains(&(i as u8)) {
+                let d = format!("{:?} was pending for signals source {} when the dispatch polled, the source was processed, but the signal was not handed to the callback", UNIVERSE[i].1, id);
+                drop(st);
+                sim.violate("signal.left_pending", vec![], d);
+                return;
+            }
+        }
+    }
 }
 
 /// the Signals object was dropped: its mask is unblocked, pending signals hit the handlers
